@@ -63,7 +63,12 @@ def do_check(prop, tier, seed):
     seen_keys = {}
     unconfirmed = []
     tries = {}
-    for v in result.violations:
+    # simplest case first within each root-cause group: the smallest case is the most likely
+    # to be self-contained (to fail again on replay) and the easiest to read
+    order = sorted(range(len(result.violations)),
+                   key=lambda i: (json.dumps(result.violations[i].key), getattr(result.violations[i], "priority", 1),
+                                  len(json.dumps(result.violations[i].case)), i))
+    for v in [result.violations[i] for i in order]:
         f = report.open_finding(prop, v.key, known)
         if f is not None:
             k = json.dumps(f.get("key"))
@@ -74,7 +79,7 @@ def do_check(prop, tier, seed):
         n_new += 1
         k = json.dumps(v.key)
         seen_keys[k] = seen_keys.get(k, 0) + 1
-        if seen_keys[k] > 3 or printed >= MAX_LINES or tries.get(k, 0) >= 8:
+        if seen_keys[k] > 3 or printed >= MAX_LINES or tries.get(k, 0) >= 12:
             continue
         tries[k] = tries.get(k, 0) + 1
         # confirm from the replay file in a re-created state before reporting; a case that
